@@ -115,7 +115,7 @@ func TestC16(t *testing.T) {
 		"whole-language programs: the constructs of C01-C03 plus input, read, write, exists, program calls and pipelines (names as identifiers and as string literals, captured or not), copy, empty blocks of every kind, else-if after nested blocks, nesting up to 6, up to 8 functions, imports of strings/os; scripts are not executed. Oracle: bash -n accepts the Bash script silently; a structural reader of the Batch text (by shape: routines = 'goto :M' + label ... ':M', loops = 'head ... goto head / ) / end', ifs = 'goto X / ) / X') checks balanced parentheses, every goto/call target defined, no label twice, helper routines present exactly when called from elsewhere, and every loop/branch jump inside and innermost. Non-trivial = an empty block, nesting >= 3, or >= 2 helper-requiring builtins; distinct by source text.",
 		[]string{"Batch text is read structurally, not executed (C05 runs it under a model)", "strings use the neutral alphabet, so quotes in emitted lines delimit data reliably"})
 	defer r.Flush()
-	cfg := gen.Cfg{MaxStmts: 30, MaxDepth: 5, ExprDepth: 3, Funcs: true, MaxFuncs: 6, Slices: true, StrOps: true, Panics: true, LoopBudget: 1000, IO: true, BigSlices: true, ErrSpell: true}
+	cfg := gen.Cfg{MaxStmts: 30, MaxDepth: 5, ExprDepth: 3, Funcs: true, MaxFuncs: 6, Slices: true, StrOps: true, Panics: true, LoopBudget: 1000, IO: true, BigSlices: true, ErrSpell: true, BareExpr: true}
 	if e.Thorough() {
 		cfg.MaxStmts, cfg.MaxDepth, cfg.MaxFuncs = 60, 6, 8
 	}
